@@ -37,6 +37,9 @@ CLAIMS = {
  'C10': dict(
    text='Smack::inner_match/inner_match_shift7/search_next/search_next_end are proved memory-safe and EQUAL to a reference run (scan/next_spec/next_end_spec) over the compiled table for every well-formed table, input and offset (loop invariants, no bound); proto::repl is proved to identify by exactly that run from the stored per-flow state (TCP) or BASE_STATE followed by the END symbol (UDP) and to answer nothing through a signature-dispatched responder when the run reports no match. Ground: wf() and the id range are evaluated on the table dumped from the real binary, and the language of that table is compared with the signature set read from the current source by exhaustive product exploration over byte classes (297 product states).',
    note='the product explorer (tools/ground.py, Python) is in the trusted base; lazy_static initialise-once semantics assumed (R3); the 8 known discrepancy classes (wildcard shadowing) are known findings, any other class is a violation; "answered by that protocol\'s responder" composes with responder contracts that are still assumed (trusted stubs listed in the evidence); segmentation lemma scan(a++b) not yet proved'),
+ 'C11': dict(
+   text='The matcher is proved segmentation independent (lemma_scan_concat / lemma_next_concat: search_next over a segment that reports nothing, continued from the stored state over the next segment, equals search_next over the concatenation); proto::repl is proved to thread exactly that state through the per-flow record; http_parse is proved equal to the reference parser http_run started from the per-flow parser state, rpc_parse consumes one byte per step from the per-flow state (no look-ahead), so the parser state after any segmentation of the bytes it is shown is the one-shot state; the reply is produced exactly when the state becomes CONTENT / End and only bare ACKs before (tcp::repl: PSH iff payload reply). Ground: the known dispatcher finding is replayed on every run.',
+   note='KNOWN FINDING: bytes that arrive before identification completes are never shown to the HTTP/RPC parser, so a cut inside the signature changes the outcome; the concatenation lemma for http_run itself (method phase + per-byte phase) is not yet a proved lemma; rpc_parse decoding is an invariant, not an equality with a fold'),
  'C12': dict(
    text='Per-protocol clauses proved so far: ARP op != 1, ICMP type != 8, ICMPv6 type not in {128,135} or code != 0, TCP flags == SYN|ACK or RST or bare ACK => no reply (iff postconditions of the responders).',
    note='STUN class != Request => no STUN response, DNS QR=1 => no DNS response are proved; PARTIAL: SMB reply flag, RPC reply and the reflection-chain bound are not yet under contract'),
@@ -55,6 +58,9 @@ CLAIMS = {
  'C18': dict(
    text='ssh_parse is proved (loop invariant, lexicographic termination measure for the re-read in state LF) to compute exactly the reference automaton ssh_run written from RFC 4253 4.2; ssh::repl answers iff that automaton ends in EOB and then with exactly "SSH-2.0-1\\r\\n". Lemmas over ssh_run: every string "SSH-" (digit|.)* "-" software [SP comment] CR LF (software without SP/CR, comment without CR) is accepted; strings without a CR LF pair or not starting "SSH-" are never accepted; run(a++b) = run(run(a), b). ghost::repl is proved to return "Gh0st" ++ le32(total length) ++ le32(1) ++ zlib([0]) with the declared total equal to the frame length.',
    note='gray zone left unconstrained (empty software, lone CR inside software/comment, which the code tolerates); that the leading bytes are SSH-2.0/SSH-1.99 is the dispatcher\'s part (C10); flate2 is an assumed contract (output inflates to the input; length bound); byte2str (log rendering) trusted'),
+ 'C19': dict(
+   text='(a) functional postconditions: ssh::repl, ghost::repl, http::repl, the matcher/dispatch clauses of proto::repl are proved to be functions of the payload (and per-flow parser state / clock) only; stun::repl places exactly (source IP, source port) in MAPPED-ADDRESS, DNS answers place exactly the destination IPv4 address in RDATA. (b) type-level frame: unit u_frame re-verifies ssh, ghost and http responders against an OPAQUE ClientInfo (no readable field), so any read of a port, address or transport in these responders is a named obligation that fails; L4 hands the payload up unconditionally (udp::repl, tcp::repl).',
+   note='SMB responders are not covered (assumed contracts); portmapper address/port placement rests on the assumed build_repl_portmap contract; proto::repl reads client_info.transport/cookie only for the TCP-without-cookie guard (visible in its contract)'),
  'C20': dict(
    text='Ghost event log threaded through every layer function (World parameter): each appends a well-nested account recv . inner . (send|drop) of its own layer, terminal verb send iff it returns a reply, logged packet bytes are the request / the reply; proved per function and composed up to masscanned::reply.',
    note='MetaLogger is a shim (assumed to forward each event once); console/logfmt line syntax not yet under contract'),
@@ -73,7 +79,7 @@ def main():
          "engines": [
              {"name": "verus", "path": "tools/ (extract/splice/run), contracts/*.vspec, shim/, spec/, units/", "serves_properties": sorted(CLAIMS),
               "kind_free_text": "deductive verifier; contracts spliced onto functions extracted verbatim from /repo/src on every run"},
-             {"name": "ground", "path": "tools/ground.py, tools/replay.py", "serves_properties": ["C01", "C07", "C08", "C10"],
+             {"name": "ground", "path": "tools/ground.py, tools/replay.py", "serves_properties": ["C01", "C07", "C08", "C10", "C11", "C13"],
               "kind_free_text": "closed obligations and witness replay executed on the hook binary rebuilt from /repo"}],
          "checks": [], "not_applicable": [],
          "notes": "exit 2 from a check means undecided (lost extraction anchor, front-end error, resource limit, vacuous contract, unlisted assumption), never a violation"}
